@@ -12,6 +12,8 @@
 -/
 import OrbProofs.C07Lemmas
 import OrbProofs.C07Mls
+import OrbProofs.C07Options
+import OrbProofs.C07Provenance
 import Mathlib.Algebra.Order.Field.Rat
 import Mathlib.Tactic.NormNum
 
@@ -57,6 +59,22 @@ theorem line_total_any {β : Type} [Add β] [Sub β] [Mul β] [Div β] [LT β] [
 /-- … in particular on the floats the implementation runs on. -/
 theorem line_total_float (box : Bound Float) (isOpen : Bool) (inp : List (Pt Float)) :
     ∃ out, line box isOpen inp = some out := line_total_any' box isOpen inp
+
+/-- PROVENANCE, FOR ANY ARITHMETIC (no exactness, no hypothesis on the box, either option): every vertex `line`
+    returns is an input vertex AS IT IS (a copy: `v ∈ inp`, the same value, no arithmetic touched it) or a
+    computed point, which has a coordinate that IS an edge value of the box (`intersect` stores the edge
+    value in the clipped coordinate, `clampToBound` stores edge values only).  So a rounding tolerance can
+    only ever be owed to the other coordinate of a point on the boundary; a vertex off the boundary must be
+    bit-identical to an input vertex (driver clause `vertex-neither-input-nor-on-boundary`, exact). -/
+theorem line_vertex_copy_or_computed {β : Type} [Add β] [Sub β] [Mul β] [Div β] [LT β] [LE β] [DecidableLT β]
+    [DecidableLE β] [BEq β] [Min β] [Max β] (box : Bound β) (isOpen : Bool) (inp : List (Pt β))
+    (out : List (List (Pt β))) (h : line box isOpen inp = some out) :
+    ∀ piece ∈ out, ∀ v ∈ piece, v ∈ inp ∨ OnEdgeValue box v := line_prov' box isOpen inp out h
+
+/-- … in particular on the floats the implementation runs on. -/
+theorem line_vertex_copy_or_computed_float (box : Bound Float) (isOpen : Bool) (inp : List (Pt Float))
+    (out : List (List (Pt Float))) (h : line box isOpen inp = some out) :
+    ∀ piece ∈ out, ∀ v ∈ piece, v ∈ inp ∨ OnEdgeValue box v := line_prov' box isOpen inp out h
 
 /-- Every output vertex is inside the closed box (both modes). -/
 theorem clip_vertices_in_box (box : Bound α) (hb : BoxOK box) (isOpen : Bool) (inp : List (Pt α))
@@ -159,6 +177,62 @@ theorem mls_open_complete (box : Bound α) (hb : BoxOK box) (mls : List (List (P
 theorem mls_open_split_witness :
     multiLineString (⟨⟨0, 0⟩, ⟨2, 2⟩⟩ : Bound ℚ) true [[⟨1, 1⟩, ⟨2, 1⟩, ⟨1, 3/2⟩]] =
       some [[⟨1, 1⟩, ⟨2, 1⟩], [⟨2, 1⟩, ⟨1, 3/2⟩]] := mls_open_split_witness'
+
+/-! ### the option list `opts ...Option` of both entry points (clip/options.go; model Orb/ClipOptions.lean)
+
+  `clip.LineString(b, ls, opts...)` / `clip.MultiLineString(b, mls, opts...)` run the options, in list order,
+  over a FRESH `options{}` value and pass its flag to `line`: the clip depends on the list through its
+  last entry only (no entry: closed bound), and — the value being fresh — on no earlier call.  The
+  harness makes the real calls with every spelling of the list (none / one / several / repeated, in every
+  order; ops `line`, `mls`: a list spelled out in the case or chosen per case), each preceded by a call with
+  the opposite option, and compares them with these definitions. -/
+
+/-- no option: the closed bound -/
+theorem options_none : applyOptions [] = false := options_none'
+
+/-- THE LAST OPTION WINS, whatever precedes it -/
+theorem options_last_wins (opts : List Opt) (b : Bool) : applyOptions (opts ++ [Opt.openBound b]) = b :=
+  options_last_wins' opts b
+
+/-- … i.e. the flag is the argument of the last `OpenBound` of the list, `false` for the empty list -/
+theorem options_eq_last (opts : List Opt) : applyOptions opts = (opts.getLast?.map Opt.yes).getD false :=
+  options_eq_last' opts
+
+/-- two spellings with the same last entry (or both empty) are the same request -/
+theorem options_spelling (o₁ o₂ : List Opt) (h : o₁.getLast?.map Opt.yes = o₂.getLast?.map Opt.yes) :
+    applyOptions o₁ = applyOptions o₂ := options_spelling' o₁ o₂ h
+
+/-- `[OpenBound(true), OpenBound(false)]` asks for the closed bound (an override appended to a default),
+    `[OpenBound(false), OpenBound(true)]` for the open one -/
+theorem options_override_witness :
+    applyOptions [Opt.openBound true, Opt.openBound false] = false ∧
+    applyOptions [Opt.openBound false, Opt.openBound true] = true ∧
+    applyOptions [Opt.openBound true] = true ∧ applyOptions [Opt.openBound false] = false :=
+  options_override_witness'
+
+/-- the entry points with their option lists ARE `line` / `multiLineString` at that flag — for any
+    arithmetic on the coordinate type -/
+theorem lineStringOpts_eq {β : Type} [Add β] [Sub β] [Mul β] [Div β] [LT β] [LE β] [DecidableLT β]
+    [DecidableLE β] [BEq β] [Min β] [Max β] (box : Bound β) (opts : List Opt) (ls : List (Pt β)) :
+    lineStringOpts box opts ls = line box ((opts.getLast?.map Opt.yes).getD false) ls :=
+  lineStringOpts_eq' box opts ls
+
+theorem multiLineStringOpts_eq {β : Type} [Add β] [Sub β] [Mul β] [Div β] [LT β] [LE β] [DecidableLT β]
+    [DecidableLE β] [BEq β] [Min β] [Max β] (box : Bound β) (opts : List Opt) (mls : List (List (Pt β))) :
+    multiLineStringOpts box opts mls = multiLineString box ((opts.getLast?.map Opt.yes).getD false) mls :=
+  multiLineStringOpts_eq' box opts mls
+
+/-- SOUND AND COMPLETE for the entry point as it is called: whenever the option list asks for the closed
+    bound (it is empty, or its last entry is `OpenBound(false)` — whatever the earlier entries say) the
+    pieces are exactly the points of the input in the closed box -/
+theorem lineStringOpts_closed_exact (box : Bound α) (hb : BoxOK box) (opts : List Opt) (hc : AsksClosed opts)
+    (inp : List (Pt α)) (out : List (List (Pt α))) (h : lineStringOpts box opts inp = some out) :
+    ∀ q, OnPieces out q ↔ (OnPath inp q ∧ InBox box q) := lineStringOpts_closed_exact' box hb opts hc inp out h
+
+/-- every output vertex is in the closed box, for every option list -/
+theorem lineStringOpts_vertices_in_box (box : Bound α) (hb : BoxOK box) (opts : List Opt)
+    (inp : List (Pt α)) (out : List (List (Pt α))) (h : lineStringOpts box opts inp = some out) :
+    ∀ piece ∈ out, ∀ v ∈ piece, InBox box v := lineStringOpts_vertices_in_box' box hb opts inp out h
 
 /-- Non-vacuity: a concrete box and a concrete two-piece clip. -/
 example : BoxOK (⟨⟨1, 1⟩, ⟨3, 3⟩⟩ : Bound ℚ) := by constructor <;> norm_num
